@@ -414,9 +414,12 @@ pub fn run(toks: Vec<Tok>) -> Vec<Tok> {
 
 /// A client that is gone while its tunnel's destination stays: the tunnel's outbound connection has to go with it.
 /// in : [proto 1|2|3, how the client goes: 0 = its TCP connection is reset (SO_LINGER 0) | 1 = its connection is closed without a word
-///       (TCP FIN, no TLS closure alert, no END_STREAM; HTTP/3: CONNECTION_CLOSE) | 2 = (HTTP/3) RESET_STREAM on the request stream, the connection stays]
+///       (TCP FIN, no TLS closure alert, no END_STREAM; HTTP/3: CONNECTION_CLOSE) | 2 = (HTTP/3) RESET_STREAM on the request stream, the connection stays
+///       | 3 = (HTTP/3) the same while the tunnel is back-pressured: once the ten bytes are there the destination leaves its socket unread for
+///       3 s, the client uploads until nothing more is taken from it for 500 ms (or 32 MiB / 2.2 s have gone), then RESET_STREAM]
 ///      The destination reads, never writes, and does not close when its peer does.
-/// out: [996] | [status, what the destination saw within the wait (0 nothing | 1 end of stream | 2 error), ms until the gauges said so (at most 8000)]
+/// out: [996] | [status, what the destination saw within the wait (0 nothing | 1 end of stream | 2 error), ms until the gauges said so (at most 8000),
+///               bytes the destination received]
 ///              [sessions 1 2 3, tcp sockets, udp sockets, inbound 1 2 3, outbound 1 2 3] read from /metrics at that moment
 pub fn gone(toks: Vec<Tok>) -> Vec<Tok> {
     let f = toks[0].clone();
@@ -434,7 +437,8 @@ pub fn gone(toks: Vec<Tok>) -> Vec<Tok> {
                     if let Ok((mut s, _)) = l.accept().await {
                         let (seen, got) = (seen.clone(), got.clone());
                         tokio::spawn(async move {
-                            let mut buf = [0u8; 1024];
+                            let mut buf = [0u8; 16384];
+                            let mut stalled = false;
                             loop {
                                 match s.read(&mut buf).await {
                                     Ok(0) => {
@@ -442,7 +446,12 @@ pub fn gone(toks: Vec<Tok>) -> Vec<Tok> {
                                         break;
                                     }
                                     Ok(n) => {
-                                        got.fetch_add(n, std::sync::atomic::Ordering::SeqCst);
+                                        let all = got.fetch_add(n, std::sync::atomic::Ordering::SeqCst) + n;
+                                        if how == 3 && !stalled && all >= 10 {
+                                            // the destination does not read for a while: the whole upload path fills up
+                                            stalled = true;
+                                            tokio::time::sleep(Duration::from_millis(3000)).await;
+                                        }
                                     }
                                     Err(_) => {
                                         seen.store(2, std::sync::atomic::Ordering::SeqCst);
@@ -553,8 +562,24 @@ pub fn gone(toks: Vec<Tok>) -> Vec<Tok> {
                 c.drive(Duration::from_millis(200), |_| false).await;
                 sid = Some(id);
             }
-            if how == 2 {
+            if how == 2 || how == 3 {
                 if let Some(id) = sid {
+                    if how == 3 {
+                        let chunk = vec![0x5au8; 32 * 1024];
+                        let mut total = 0usize;
+                        let t0 = tokio::time::Instant::now();
+                        let mut last = t0;
+                        while total < (32 << 20) && last.elapsed() < Duration::from_millis(500) && t0.elapsed() < Duration::from_millis(2200) {
+                            let n = c.send_some(id, &chunk);
+                            if n > 0 {
+                                total += n;
+                                last = tokio::time::Instant::now();
+                            } else {
+                                c.drive(Duration::from_millis(10), |_| false).await;
+                            }
+                        }
+                        log::info!("the client handed over {} more bytes in {} ms", total, t0.elapsed().as_millis());
+                    }
                     c.reset_stream(id, 0x10c);
                 }
                 h3_kept = Some(c);
@@ -579,12 +604,24 @@ pub fn gone(toks: Vec<Tok>) -> Vec<Tok> {
                 break;
             }
         }
+        if how == 3 {
+            // what the endpoint wrote before it let go is still on its way to the destination
+            for _ in 0..100 {
+                if seen.load(std::sync::atomic::Ordering::SeqCst) != 0 {
+                    break;
+                }
+                match h3_kept.as_mut() {
+                    Some(c) => c.drive(Duration::from_millis(50), |_| false).await,
+                    None => tokio::time::sleep(Duration::from_millis(50)).await,
+                }
+            }
+        }
         if let Some(mut c) = h3_kept {
             c.close();
         }
         if text.is_empty() {
             return vec![vec![996]];
         }
-        vec![vec![status, seen.load(std::sync::atomic::Ordering::SeqCst) as u128, waited], snapshot(&text)]
+        vec![vec![status, seen.load(std::sync::atomic::Ordering::SeqCst) as u128, waited, got.load(std::sync::atomic::Ordering::SeqCst) as u128], snapshot(&text)]
     })
 }
